@@ -136,8 +136,30 @@ func alnumRunes(input string) []int32 {
 func floatOracles(input string) []FloatOracle {
 	seen := map[string]bool{}
 	var out []FloatOracle
+	// only the number tokens of F4/F8 items are ever looked up by the model
+	var types []string
+	var toks []sml.VerifToken
 	for _, t := range sml.VerifLex(input) {
-		if t.Type != 12 || seen[t.Val] {
+		if t.Type != 2 { // the parser does not see comments
+			toks = append(toks, t)
+		}
+	}
+	for i, t := range toks {
+		switch t.Type {
+		case 8: // '<'
+			ty := ""
+			if i+1 < len(toks) && toks[i+1].Type == 10 {
+				ty = toks[i+1].Val
+			}
+			types = append(types, ty)
+		case 9: // '>'
+			if len(types) > 0 {
+				types = types[:len(types)-1]
+			}
+		case 3: // '.'
+			types = types[:0]
+		}
+		if t.Type != 12 || seen[t.Val] || len(types) == 0 || (types[len(types)-1] != "F4" && types[len(types)-1] != "F8") {
 			continue
 		}
 		seen[t.Val] = true
